@@ -115,6 +115,20 @@ func (l sliceLoop) noEarlyExit() bool {
 	return true
 }
 
+// noEarlyExitExcept: like noEarlyExit, but returns accepted by okReturn may leave the loop from its body.
+func (l sliceLoop) noEarlyExitExcept(okReturn func(*ssa.Return) bool) bool {
+	f := l.Elem.Parent()
+	for _, r := range realReturns(f) {
+		if okReturn(r) {
+			continue
+		}
+		if pathExists(f, l.Body, r, nil, isOneOf(l.Test)) {
+			return false
+		}
+	}
+	return true
+}
+
 // A mapLoop is a `for k, v := range <map>` loop: Range/Next.
 type mapLoop struct {
 	X      ssa.Value
@@ -264,7 +278,12 @@ func edgeGuarded(pred, succ *ssa.BasicBlock, from ssa.Instruction, fact EdgePred
 			return true
 		}
 	}
-	return guardedBy(term, from, fact)
+	if guardedBy(term, from, fact) {
+		return true
+	}
+	// the edge itself may be guarded although the end of pred is not (the branch taken depends on a boolean computed
+	// from the fact: `ok := a && b; if ok {…} else {<here>}`)
+	return !pathExistsToEdge(pred.Parent(), from, pred, succ, fact)
 }
 
 func constantInt(k int64) constant.Value { return constant.MakeInt64(k) }
@@ -318,6 +337,24 @@ func ctxKeyReadBy(f *ssa.Function) (int64, string) {
 		if k, ok := v.(*ssa.Const); ok {
 			if n, isInt := constInt(k); isInt {
 				return n, typeStr(k.Type())
+			}
+		}
+	}
+	// the reader may delegate to a helper taking the key (contextString(ctx, key)): the key is the constant it passes
+	for _, ci := range allCallsShallow(f) {
+		sc := ci.Common().StaticCallee()
+		if sc == nil || sc.Blocks == nil || !isRepoPath(fnPkgPath(sc)) {
+			continue
+		}
+		for _, a := range ci.Common().Args {
+			v := a
+			if mi, ok := v.(*ssa.MakeInterface); ok {
+				v = mi.X
+			}
+			if k, ok := v.(*ssa.Const); ok {
+				if n, isInt := constInt(k); isInt && strings.HasPrefix(typeStr(k.Type()), "rt/") {
+					return n, typeStr(k.Type())
+				}
 			}
 		}
 	}
